@@ -20,6 +20,18 @@ fn finish(mut ex: Exec, v: Option<Violation>) -> Outcome {
             // harness) was leaked, and a destructor that ran twice ran twice - both are C08's
             // subject whatever property the first discrepancy belonged to.
             let faults = ex.cfg.faults;
+            // Model-independent purge invariant (C05): whatever went wrong first, a component whose
+            // index belongs to no entity the world itself still reports (alive or awaiting maintain)
+            // was not purged when its owner's deletion took effect.
+            if !faults {
+                let orphan = std::panic::catch_unwind(std::panic::AssertUnwindSafe(|| ex.orphan_component()));
+                if let Ok(Some(d)) = orphan {
+                    if !v.props.iter().any(|p| p == "C05") {
+                        v.props.push("C05".to_string());
+                    }
+                    v.detail = format!("{} | {}", v.detail, d);
+                }
+            }
             let settled = std::panic::catch_unwind(std::panic::AssertUnwindSafe(|| {
                 let _ = ex.finish();
                 let _ = crate::ledger::take_anomalies();
